@@ -75,7 +75,7 @@ schema(A.Callback, ctype='str?')
 schema(A.Include, name='str', version='str')
 
 schema(message.Position, filename='str?', line='int?', column='int?', is_typedef='bool')
-schema(message.MessageLogger, _cwd='str', _output='any', _namespace='Namespace?', _enable_warnings='bool',
+schema(message.MessageLogger, _cwd='str', _output='opaque', _namespace='Namespace?', _enable_warnings='bool',
        _enable_strict='bool', _warning_count='int')
 
 AP = annotationparser
